@@ -430,6 +430,63 @@ Fixpoint abstract_fuel (fuel : nat) (r : list ch) (cnt : nat) (incomment : bool)
 
 Definition abstract (s : list ch) : list sym := abstract_fuel (length s) s 0 false.
 
+(* the {expression} parts of an f-string, as FStringPart::Expr records them: (first scalar, one past the last scalar)
+   of the text between `{` and its matching `}` (nested braces included), counts relative to r as in [fstr_loop].
+   Mirrors [fstr_loop] arm by arm; at the end of input an open expression runs to the end. *)
+Fixpoint fstr_exprs (q : ch) (ed st : nat) (r : list ch) (n : nat) : list (nat * nat) :=
+  match r with
+  | [] => match ed with O => [] | S _ => [(st, n)] end
+  | c :: r1 =>
+      match ed with
+      | S d' =>
+          if c =? 123 then fstr_exprs q (S ed) st r1 (n + 1)%nat
+          else if c =? 125 then
+            match d' with
+            | O => (st, n) :: fstr_exprs q 0 0 r1 (n + 1)%nat
+            | S _ => fstr_exprs q d' st r1 (n + 1)%nat
+            end
+          else fstr_exprs q ed st r1 (n + 1)%nat
+      | O =>
+          if c =? q then []
+          else if c =? 123 then
+            match r1 with
+            | c2 :: r2 => if c2 =? 123 then fstr_exprs q 0 0 r2 (n + 2)%nat else fstr_exprs q 1 (n + 1)%nat r1 (n + 1)%nat
+            | [] => fstr_exprs q 1 (n + 1)%nat r1 (n + 1)%nat
+            end
+          else if c =? 125 then
+            match r1 with
+            | c2 :: r2 => if c2 =? 125 then fstr_exprs q 0 0 r2 (n + 2)%nat else fstr_exprs q 0 0 r1 (n + 1)%nat
+            | [] => fstr_exprs q 0 0 r1 (n + 1)%nat
+            end
+          else if c =? 92 then
+            match r1 with
+            | [] => []
+            | _ :: r2 => fstr_exprs q 0 0 r2 (n + 2)%nat
+            end
+          else if c =? 10 then []
+          else fstr_exprs q 0 0 r1 (n + 1)%nat
+      end
+  end.
+
+(* for every f-string token of a run: (scalar index of the token, scalar ranges of its {expression} parts) *)
+Definition fstring_parts (src : list ch) (o : coutcome) : list (Z * list (Z * Z)) :=
+  match o with
+  | CDone evs =>
+      flat_map (fun e => match e with
+                         | CT k a _ =>
+                             if k =? K_FSTR then
+                               match skipn a src with
+                               | _ :: q :: r1 =>
+                                   [(Z.of_nat a, map (fun p : nat * nat => (Z.of_nat (a + 1 + fst p), Z.of_nat (a + 1 + snd p)))
+                                                     (fstr_exprs q 0 0 r1 1))]
+                               | _ => []
+                               end
+                             else []
+                         | _ => []
+                         end) evs
+  | COutOfFuel => []
+  end.
+
 (* ------------------------------------------------------------------ rendering and input decoding for the runs *)
 
 Definition rcev (src : list ch) (e : cev) : Z * Z * Z * Z * Z :=
